@@ -36,11 +36,10 @@ type c36Op struct {
 }
 
 type c36Plan struct {
-	N          uint     `json:"n"`
-	Rate       float64  `json:"rate"`
-	Items      []string `json:"items"` // Go-quoted
-	Ops        []c36Op  `json:"ops"`
-	ZeroRemove bool     `json:"zero_remove,omitempty"` // k=0 only: run the Remove calls too (they spin the script to its budget)
+	N     uint     `json:"n"`
+	Rate  float64  `json:"rate"`
+	Items []string `json:"items"` // Go-quoted
+	Ops   []c36Op  `json:"ops"`
 }
 
 type c36Obs struct {
@@ -63,10 +62,9 @@ func genC36Plan(rt *rapid.T) c36Plan {
 		p.N = rapid.SampledFrom([]uint{1, 2, 3, 4}).Draw(rt, "tinyN")
 		p.Rate = rapid.SampledFrom([]float64{0.5, 0.3, 0.6, 0.2, 0.1, 0.4, 0.05}).Draw(rt, "tinyRate")
 	} else {
-		p.N, p.Rate = probConfig(rt, 1<<40)
+		p.N, p.Rate = probConfig(rt, 1<<40, 0)
 	}
 	_, k := probSizing(p.N, p.Rate)
-	p.ZeroRemove = k == 0 && rapid.IntRange(0, 39).Draw(rt, "zeroRemove") == 17
 	maxItems, maxOps, maxMulti := 16, 30, 6
 	if k > 64 {
 		maxItems, maxOps, maxMulti = 8, 12, 3
@@ -199,10 +197,6 @@ func c36Run(t *testing.T, plan c36Plan) (res bubble.Result, ctorErr string, obs 
 			}
 			for i, op := range plan.Ops {
 				o := &obs[i]
-				if k == 0 && strings.HasPrefix(op.Kind, "remove") && !plan.ZeroRemove {
-					o.Skipped, o.Done = true, true
-					continue
-				}
 				mark := len(w.Snapshot())
 				var err error
 				switch op.Kind {
@@ -319,11 +313,8 @@ func c36Check(c *stat.Collector, rt stat.Fataler, plan c36Plan, res bubble.Resul
 	if panicked != "" || res.Panic != nil {
 		c.Fail(rt, "C36.no-panic", cfg+": "+panicked+res.String(), plan)
 	}
-	for i, o := range obs {
+	for _, o := range obs {
 		if probUnsupported(o.Err) || probUnsupported(o.SingleE) {
-			if k == 0 && strings.Contains(o.Err, "budget exceeded") && strings.HasPrefix(plan.Ops[i].Kind, "remove") {
-				continue // the zero-step loop of the remove script, judged below
-			}
 			return false, nil, true
 		}
 	}
@@ -333,7 +324,6 @@ func c36Check(c *stat.Collector, rt stat.Fataler, plan c36Plan, res bubble.Resul
 	if ctorErr != "" {
 		c.Fail(rt, "C36.accepted-domain", fmt.Sprintf("NewCountingBloomFilter with %s failed: %s", cfg, ctorErr), plan)
 	}
-	zeroKnown := k == 0 && c.Known("C36.zero-hash-functions")
 	net := map[int]int{}
 	idxOf := map[int][]string{}
 	removed := map[int]bool{}
@@ -370,11 +360,6 @@ func c36Check(c *stat.Collector, rt stat.Fataler, plan c36Plan, res bubble.Resul
 		}
 		where := fmt.Sprintf("op %d (%s %v) with %s", i, op.Kind, op.Keys, cfg)
 		if o.Err != "" || o.SingleE != "" {
-			if zeroKnown {
-				cls["k=0-call-fails"] = true
-				prev = o.Hash
-				continue
-			}
 			c.Fail(rt, "C36.no-error", fmt.Sprintf("%s failed: %s%s", where, o.Err, o.SingleE), plan)
 		}
 		cur, bad := c36Counters(o.Hash)
@@ -485,7 +470,7 @@ func c36Check(c *stat.Collector, rt stat.Fataler, plan c36Plan, res bubble.Resul
 			}
 		case "exists":
 			queried(op.Keys[0])
-			if net[op.Keys[0]] > 0 && !o.Bools[0] && !tainted && !zeroKnown {
+			if net[op.Keys[0]] > 0 && !o.Bools[0] && !tainted {
 				c.Fail(rt, "C36.no-false-negative", fmt.Sprintf("%s: item %s has net multiplicity %d, Exists reports false; hash {%s}", where, plan.Items[op.Keys[0]], net[op.Keys[0]], c36Raw(o.Hash)), plan)
 			}
 		case "existsmulti":
@@ -494,7 +479,7 @@ func c36Check(c *stat.Collector, rt stat.Fataler, plan c36Plan, res bubble.Resul
 			}
 			for j, key := range op.Keys {
 				queried(key)
-				if net[key] > 0 && !o.Bools[j] && !tainted && !zeroKnown {
+				if net[key] > 0 && !o.Bools[j] && !tainted {
 					c.Fail(rt, "C36.no-false-negative", fmt.Sprintf("%s: item %s (position %d) has net multiplicity %d, ExistsMulti reports %v; hash {%s}", where, plan.Items[key], j, net[key], o.Bools, c36Raw(o.Hash)), plan)
 				}
 				if o.Bools[j] != o.Singles[j] {
@@ -503,7 +488,7 @@ func c36Check(c *stat.Collector, rt stat.Fataler, plan c36Plan, res bubble.Resul
 			}
 		case "mincount":
 			queried(op.Keys[0])
-			if o.Counts[0] < uint64(net[op.Keys[0]]) && !tainted && !zeroKnown {
+			if o.Counts[0] < uint64(net[op.Keys[0]]) && !tainted {
 				c.Fail(rt, "C36.min-count-covers-net", fmt.Sprintf("%s: item %s has net multiplicity %d, ItemMinCount reports %d; hash {%s}", where, plan.Items[op.Keys[0]], net[op.Keys[0]], o.Counts[0], c36Raw(o.Hash)), plan)
 			}
 		case "mincountmulti":
@@ -512,7 +497,7 @@ func c36Check(c *stat.Collector, rt stat.Fataler, plan c36Plan, res bubble.Resul
 			}
 			for j, key := range op.Keys {
 				queried(key)
-				if o.Counts[j] < uint64(net[key]) && !tainted && !zeroKnown {
+				if o.Counts[j] < uint64(net[key]) && !tainted {
 					c.Fail(rt, "C36.min-count-covers-net", fmt.Sprintf("%s: item %s (position %d) has net multiplicity %d, ItemMinCountMulti reports %v; hash {%s}", where, plan.Items[key], j, net[key], o.Counts, c36Raw(o.Hash)), plan)
 				}
 				if o.Counts[j] != o.SingleCounts[j] {
@@ -536,8 +521,6 @@ func c36Check(c *stat.Collector, rt stat.Fataler, plan c36Plan, res bubble.Resul
 		prev = o.Hash
 	}
 	switch {
-	case k == 0:
-		cls["k=0"] = true
 	case k == 1:
 		cls["k=1"] = true
 	case k <= 8:
@@ -557,7 +540,7 @@ func c36Check(c *stat.Collector, rt stat.Fataler, plan c36Plan, res bubble.Resul
 	if mixedMulti {
 		cls["multi-remove-mixes-removable-and-refused"] = true
 	}
-	return (collisionQuery || underflowNonEmpty || mixedMulti) && !zeroKnown, nil, false
+	return (collisionQuery || underflowNonEmpty || mixedMulti), nil, false
 }
 
 func TestVerif_C36_CountingBloom(t *testing.T) {
